@@ -365,7 +365,19 @@ fn run_request(s: &mut Session, fc: &Ctx, req: &Req) {
         let prefix = format!("{} {}", plan_tok(pv.font_num_glyphs, &pv.glyphset_gsub, &gsub_kept), gdef_tok(og));
         if let Some(real) = gdef_real_response(&res) {
             s.count(&format!("gdef:outcome:{}", real.split(' ').next().unwrap_or("")));
+            // the structured view: what read-fonts parses from the emitted table, against the model's `GdefOut`
+            let sem = if real.starts_with("ok ") {
+                match &res {
+                    Ok(Ok(bytes)) => FontRef::new(bytes).ok().and_then(|f| f.gdef().ok().map(|g| format!("ok {}", gdef_tok(&g)))),
+                    _ => None,
+                }
+            } else {
+                Some(real.clone())
+            };
             s.case("gdef", format!("c17.gdef {prefix}"), real);
+            if let Some(sem) = sem {
+                s.case("gdefsem", format!("c17.gdefsem {prefix}"), sem);
+            }
         }
         let lv = vh::plan_layout_view(&plan);
         let fmt = |v: Vec<(u32, u32)>| if v.is_empty() { "-".to_string() } else { v.iter().map(|(a, b)| format!("{a}:{b}")).collect::<Vec<_>>().join(",") };
